@@ -335,66 +335,15 @@ def jw_simplify_rule(chk, src):
 
 
 def state_swap_rule(chk, src):
-    """state side of an on-the-fly site swap in MatrixProduct._update_mps: the swapped two-site tensor, its fermionic sign, its symmetry labels, the decomposition results and
-    the model are exchanged together"""
-    fi = src.func("renormalizer/mps/mp.py", "MatrixProduct._update_mps")
-    tr = [c for c in ast.walk(fi.node) if isinstance(c, ast.Call) and isinstance(c.func, ast.Attribute) and c.func.attr == "transpose" and "cstruct" in unparse(c.func.value)]
-    perms = sorted(tuple(ast.literal_eval(a) for a in c.args) for c in tr)
-    chk.ob("state-swap", "two-site tensor transposed by exchanging the two sites' physical (and ancilla) axes", perms == [(0, 2, 1, 3), (0, 3, 4, 1, 2, 5)], fi.where, perms,
-           [(0, 2, 1, 3), (0, 3, 4, 1, 2, 5)], line=fi.node.lineno, detail="(left, p1, p2, right) -> (left, p2, p1, right); with ancillas (left, p1, a1, p2, a2, right) -> (left, p2, a2, p1, a1, right)")
-    sign = [st for st in ast.walk(fi.node) if isinstance(st, ast.Assign) and isinstance(st.targets[0], ast.Subscript) and isinstance(st.value, ast.UnaryOp) and isinstance(st.value.op, ast.USub)
-            and unparse(st.targets[0]) == unparse(st.value.operand)]
-    oks = len(sign) == 1 and unparse(sign[0].targets[0].slice).replace(" ", "") in (":,1,1,:", "(:,1,1,:)")
-    guard = None
-    for n in ast.walk(fi.node):
-        if isinstance(n, ast.If) and sign and any(x is sign[0] for b_ in n.body for x in ast.walk(b_)):
-            guard = unparse(n.test)
-    chk.ob("state-swap", "fermionic sign: amplitude with both sites occupied changes sign, only under the Jordan-Wigner flag", oks and guard == "self.compress_config.ofs_swap_jw", fi.where,
-           {"statement": [unparse(x)[:70] for x in sign], "guard": guard}, "if self.compress_config.ofs_swap_jw: c2[:, 1, 1, :] = -c2[:, 1, 1, :]", line=fi.node.lineno,
-           detail="exchanging two occupied fermionic sites gives -1; any other block, or the sign without the flag, corrupts the state")
-    # the sign belongs to the tensor that is decomposed: it must be applied before the decomposition of the swapped tensor
-    from .. import qn as Q
-    order = Q.stmts_in_order(fi.node)
-    svd2 = [pos for pos, st in enumerate(order) if isinstance(st, ast.Assign) and isinstance(st.value, ast.Call) and unparse(st.value.func).endswith("svd_qn") and st.value.args
-            and sign and unparse(st.value.args[0]) == unparse(sign[0].targets[0].value)]
-    spos = [pos for pos, st in enumerate(order) if sign and st is sign[0]]
-    chk.ob("state-swap", "fermionic sign applied before the swapped tensor is decomposed", bool(svd2) and bool(spos) and spos[0] < svd2[0], fi.where,
-           {"sign at statement": spos, "decomposition at statement": svd2}, "sign first", line=sign[0].lineno if sign else fi.node.lineno,
-           detail="the factors stored in the state come from the decomposition: a sign applied to the two-site tensor afterwards never reaches the state (and the swap criterion is evaluated on the unsigned tensor)")
-    qn2 = [unparse(c).replace(" ", "") for c in ast.walk(fi.node) if isinstance(c, ast.Call) and unparse(c.func) == "self._get_big_qn" and any(k.arg == "swap" for k in c.keywords)]
-    chk.ob("state-swap", "symmetry labels of the swapped tensor are computed for the swapped order", qn2 == ["self._get_big_qn(cidx,swap=True)"], fi.where, qn2, "self._get_big_qn(cidx, swap=True)", line=fi.node.lineno)
-    # the `swap accepted` branch replaces all nine quantities and the model together
-    br = [n for n in ast.walk(fi.node) if isinstance(n, ast.If) and unparse(n.test) == "should_retain"]
-    ok, found = False, {}
-    if len(br) == 1:
-        keep = [st for st in br[0].body if isinstance(st, ast.Assign)]
-        swp = [st for st in br[0].orelse if isinstance(st, ast.Assign)]
-
-        def names(st):
-            t = st.targets[0]
-            return [unparse(x) for x in t.elts] if isinstance(t, ast.Tuple) else [unparse(t)]
-
-        def vals(st):
-            return [unparse(x) for x in st.value.elts] if isinstance(st.value, ast.Tuple) else [unparse(st.value)]
-        m_keep = {a: b for st in keep for a, b in zip(names(st), vals(st))}
-        m_swap = {a: b for st in swp for a, b in zip(names(st), vals(st)) if len(names(st)) == len(vals(st))}
-        six = ["Uset", "SUset", "qnlnew", "Vset", "SVset", "qnrnew"]
-        ok = all(m_keep.get(x) == x + "1" for x in six) and all(m_swap.get(x) == x + "2" for x in six) and \
-            [m_swap.get(x) for x in ("qnbigl", "qnbigr", "cstruct")] == ["qnbigl2", "qnbigr2", "cstruct2"]
-        found = {"retain": m_keep, "swap": {k: v for k, v in m_swap.items() if k in six + ["qnbigl", "qnbigr", "cstruct"]}}
-        mod = [st for st in br[0].orelse if isinstance(st, (ast.Assign, ast.AnnAssign)) and unparse(st.targets[0] if isinstance(st, ast.Assign) else st.target) == "self.model"]
-        okm = len(mod) == 1 and isinstance(mod[0].value, ast.Call) and unparse(mod[0].value.func) == "Model" and unparse(mod[0].value.args[0]) == "new_basis" and \
-            [unparse(a) for a in mod[0].value.args[1:]] == ["self.model.ham_terms", "self.model.dipole", "self.model.output_ordering"]
-        nb = [unparse(st.value).replace(" ", "") for st in br[0].orelse if isinstance(st, ast.Assign) and unparse(st.targets[0]) == "new_basis"]
-        rev = [st for st in br[0].orelse if isinstance(st, ast.Assign) and isinstance(st.targets[0], ast.Subscript) and unparse(st.targets[0].value) == "new_basis"]
-        okr = nb == ["self.model.basis.copy()"] and len(rev) == 1 and unparse(rev[0].targets[0].slice).replace(" ", "") == "cidx[0]:cidx[1]+1" and \
-            unparse(rev[0].value).replace(" ", "") == "reversed(self.model.basis[cidx[0]:cidx[1]+1])"
-        chk.ob("state-swap", "accepted swap: model rebuilt from the reordered basis with an empty operator cache", okm and okr, fi.where,
-               {"model": [unparse(m.value)[:90] for m in mod], "basis": nb, "reorder": [unparse(r)[:90] for r in rev]},
-               "new_basis = basis.copy(); new_basis[cidx[0]:cidx[1]+1] = reversed(...same slice...); self.model = Model(new_basis, ham_terms, dipole, output_ordering)", line=br[0].lineno,
-               detail="after a swap the model must describe the new site order, and operators cached for the old order (Model.mpos) must not be inherited: Model.copy() keeps that cache")
-    chk.ob("state-swap", "accepted swap replaces decomposition results, labels and tensor together", ok, fi.where, found, "all of U, S_U, qn_l, V, S_V, qn_r, qnbigl, qnbigr, cstruct from the swapped set",
-           line=fi.node.lineno, detail="mixing results of the swapped and the unswapped decomposition gives a state whose tensors and labels disagree")
+    """state side of an on-the-fly site swap: abstract run of MatrixProduct._update_mps on abstract tensors for every swap mode, states and density operators, with and
+    without the Jordan-Wigner flag, both directions, with scripted losses / entropies so that both outcomes occur (chain_rules.update_mps_rule, group `swap`): the second
+    decomposition sees the two sites exchanged with the labels of the exchanged arrangement; under the flag exactly the doubly occupied block of a copy is negated before it is
+    decomposed; whichever arrangement is chosen, vectors, values, labels, kept count, stored tensors and the model all follow it; the model is rebuilt (not edited in place)."""
+    from .chain_rules import update_mps_rule
+    n_runs, n_swapped = update_mps_rule(chk, src, {"swap": "state-swap"})
+    chk.note(f"on-the-fly swap runs in which the arrangement was exchanged: {n_swapped}")
+    if n_swapped < 8:
+        raise AnalysisError(f"state-swap: the exchanged arrangement was chosen in only {n_swapped} abstract runs; the rule would be vacuous")
 
 
 def run(chk):
@@ -411,13 +360,13 @@ def run(chk):
     chk.rule("ofs-pair", "state-side swap => operator-side swap with the same model and JW flag (or NotImplementedError)", 3)
     chk.rule("swap-co-update", "Mpo.try_swap_site updates symbolic_out_ops_list[i+1], [i+2], model, qn[i+1] and both site tensors", 6)
     chk.rule("jw-vocabulary", "table_row_swapped_jw recognises the spin-symbol spellings produced by generate_ladder_operator / simplify_op", 2)
-    chk.rule("jw-flag", "state side and operator side read the same Jordan-Wigner flag", 2)
+    chk.rule("jw-flag", "operator side applies the Jordan-Wigner remapping under the flag passed by try_swap_site (state side: state-swap runs)", 1)
     chk.rule("qc-term-coverage", "qc_model (abstract run on sparse symbolic integrals): one processed term per non-zero integral in both layouts", 2)
     chk.rule("jw-sign-parity", "Jordan-Wigner sign of an operator-side site swap over its whole (finite) input space", 2)
     JW_VERIFIED["symbols"] = jw_sign_rule(chk, src)
     chk.rule("jw-simplify", "Jordan-Wigner strings and their single-site normal ordering, exhaustively over short words", 3)
     jw_simplify_rule(chk, src)
-    chk.rule("state-swap", "state side of an on-the-fly swap: transposition, fermionic sign, labels, decomposition results and model change together", 6)
+    chk.rule("state-swap", "state side of an on-the-fly swap (abstract runs of _update_mps, every mode, both outcomes): exchanged axes, fermionic sign, labels, decomposition results, stored tensors and model change together", 24)
     state_swap_rule(chk, src)
     chk.table("update_mps_callers", {f"{k[0]}::{k[1]}": v for k, v in UPDATE_CALLERS.items()})
     # ---- ofs-pair
@@ -550,12 +499,7 @@ def run(chk):
                {"emitted": members, "verified by the swap run": sorted(verified)}, "emitted subset of verified", line=glo.node.lineno,
                detail=f"qc_model writes {members} but table_row_swapped_jw does not treat {missing} as Jordan-Wigner symbols: with ofs_swap_jw=True the operator gets a plain swap while the "
                       f"state gets the fermionic sign, so operator and state no longer correspond")
-    # ---- flag agreement
-    um = src.func(MP, "MatrixProduct._update_mps")
-    flag = [n for n in ast.walk(um.node) if isinstance(n, ast.If) and unparse(n.test) == "self.compress_config.ofs_swap_jw"]
-    okf = len(flag) == 1 and any("cstruct2[:,1,1,:]=-cstruct2[:,1,1,:]" == unparse(s).replace(" ", "") for s in flag[0].body)
-    chk.ob("jw-flag", "state side: sign of the doubly occupied pair flipped under compress_config.ofs_swap_jw", okf, um.where, [unparse(f.test) for f in flag], "if self.compress_config.ofs_swap_jw: cstruct2[:, 1, 1, :] *= -1",
-           line=um.node.lineno)
+    # ---- flag agreement (the state side - sign of the doubly occupied block exactly under compress_config.ofs_swap_jw - is decided by the state-swap runs)
     ss = src.func(SYM, "swap_site")
     jw = [n for n in ast.walk(ss.node) if isinstance(n, ast.If) and unparse(n.test) in ("swap_jw", "not swap_jw")]
     remap = any("table_and_factor_swapped_jw" in unparse(n) for n in jw if unparse(n.test) == "swap_jw")
